@@ -37,6 +37,18 @@ Proof.
   cbn [length seq combine map fst]. now rewrite IH.
 Qed.
 
+(* positions are numbered from 1 *)
+Definition pos_idx {A} (l : list (nat * A)) : Prop := Forall (fun p => fst p <> 0) l.
+
+Lemma combine_seq_pos {A} : forall (l : list A) a, a <> 0 -> pos_idx (combine (seq a (length l)) l).
+Proof.
+  induction l as [|x l IH]; intros a Ha; [constructor|].
+  cbn [length seq combine]. constructor; [exact Ha|]. apply IH. discriminate.
+Qed.
+
+Lemma indexed_pos {A} (l : list A) : pos_idx (indexed l).
+Proof. apply combine_seq_pos. discriminate. Qed.
+
 Section Core.
 Variable t : tables.
 Variable e : ec.
@@ -164,14 +176,14 @@ Proof. reflexivity. Qed.
 
 Definition VARIES : str := unbs "VARIES".
 
-Lemma mk_component_varies i :
+Lemma mk_component_varies i : i <> 0 ->
   mk_component t TOLERANT (Some (name_idx VARIES i)) None None =
   Ok (mk_comp (Some (name_idx VARIES i)) None None []).
 Proof.
-  unfold mk_component, canbevaries. rewrite is_varies_none.
+  intros Hi. unfold mk_component, canbevaries. rewrite is_varies_none.
   cbn [andb negb is_strict bind].
   change (Some (unbs "VARIES")) with (Some VARIES).
-  rewrite valid_child_name_idx, streqb_refl. cbn [bind option_map st_dt andb].
+  rewrite valid_child_name_idx, streqb_refl by exact Hi. cbn [bind option_map st_dt andb].
   rewrite name_idx_upper. change (upper VARIES) with VARIES.
   unfold name_idx at 1 2. cbn [VARIES unbs app bstarts starts_with beqb Byte.eqb].
   cbn [negb andb bind]. reflexivity.
@@ -222,11 +234,11 @@ Definition varies_comp (i : nat) (text : str) : comp :=
 
 Hypothesis Hst : base (Some (unbs "ST")) = true.
 
-Lemma parse_component_varies i text :
+Lemma parse_component_varies i text : i <> 0 ->
   subs_fix (unbs "ST") text ->
   parse_component t TOLERANT e leaf text (Some (name_idx VARIES i)) None None = Ok (varies_comp i text).
 Proof.
-  intros Hs. unfold parse_component. rewrite mk_component_varies. cbn [bind c_dt c_st].
+  intros Hi Hs. unfold parse_component. rewrite mk_component_varies by exact Hi. cbn [bind c_dt c_st].
   rewrite (parse_subcomponents_unnamed None None text); cbn [dflt_dt]; auto.
   cbn [bind is_strict negb andb]. rewrite base_none. cbn [andb].
   rewrite add_subs_unnamed_none by auto. reflexivity.
@@ -380,35 +392,37 @@ Lemma name_idx_varies_starts i : bstarts (unbs "VARIES_") (name_idx VARIES i) = 
 Proof. unfold name_idx. rewrite app_assoc. apply starts_with_app. Qed.
 
 Lemma parse_components_aux_varies st l :
-  has_map st = false -> Forall (fun p => subs_fix (unbs "ST") (snd p)) l ->
+  has_map st = false -> pos_idx l -> Forall (fun p => subs_fix (unbs "ST") (snd p)) l ->
   parse_components_aux t TOLERANT e leaf (Some (unbs "varies")) st l = Ok (vkids l).
 Proof.
-  intros Hm. induction 1 as [|[i s] l Hs _ IH]; [reflexivity|].
+  intros Hm Hp. induction 1 as [|[i s] l Hs _ IH]; [reflexivity|].
+  apply Forall_cons_iff in Hp. destruct Hp as [Hi Hp]. cbn [fst] in Hi. specialize (IH Hp).
   cbn [parse_components_aux]. rewrite Hvar. cbn [opt_is_none orb].
   change (is_varies (Some (unbs "varies"))) with true. cbv iota. rewrite Hm.
   change (name_idx (unbs "VARIES") i) with (name_idx VARIES i).
   rewrite name_idx_varies_starts, !orb_true_r.
-  cbn [snd] in Hs. rewrite (parse_component_varies i s Hs), IH. reflexivity.
+  cbn [snd] in Hs. rewrite (parse_component_varies i s Hi Hs), IH. reflexivity.
 Qed.
 
-Lemma vcc_varies_child pn pst i :
+Lemma vcc_varies_child pn pst i : i <> 0 ->
   valid_child_complex t TOLERANT pn (Some (unbs "varies")) pst (Some (name_idx VARIES i)) None = Ok true.
 Proof.
-  unfold valid_child_complex. rewrite Hvar.
+  intros Hi. unfold valid_child_complex. rewrite Hvar.
   change (is_varies (Some (unbs "varies"))) with true.
-  rewrite valid_child_name_idx. reflexivity.
+  rewrite valid_child_name_idx by exact Hi. reflexivity.
 Qed.
 
-Lemma add_comps_varies : forall l f, f_dt f = Some (unbs "varies") ->
+Lemma add_comps_varies : forall l f, pos_idx l -> f_dt f = Some (unbs "varies") ->
   add_comps t TOLERANT f (vkids l) =
   Ok (mk_field_rec (f_name f) (f_dt f) (f_st f) (f_children f ++ vkids l)).
 Proof.
-  induction l as [|[i s] l IH]; intros f Hf.
+  induction l as [|[i s] l IH]; intros f Hp Hf.
   - cbn [vkids map add_comps]. rewrite app_nil_r. now destruct f.
-  - cbn [vkids map add_comps fst snd]. rewrite Hf, Hvar. rewrite andb_false_r. cbn [andb].
-    cbn [varies_comp c_name c_dt]. rewrite vcc_varies_child. cbn [bind negb].
+  - apply Forall_cons_iff in Hp. destruct Hp as [Hi Hp]. cbn [fst] in Hi.
+    cbn [vkids map add_comps fst snd]. rewrite Hf, Hvar. rewrite andb_false_r. cbn [andb].
+    cbn [varies_comp c_name c_dt]. rewrite vcc_varies_child by exact Hi. cbn [bind negb].
     rewrite card_ok_tolerant. cbn [negb].
-    fold (varies_comp i s). fold (vkids l). rewrite IH by reflexivity.
+    fold (varies_comp i s). fold (vkids l). rewrite IH by (exact Hp || reflexivity).
     cbn [f_name f_dt f_st f_children]. now rewrite <- app_assoc.
 Qed.
 
@@ -418,18 +432,19 @@ Lemma parse_field_varies text name ref fv n sto :
   parse_field t TOLERANT e leaf text name ref fv = Ok (var_field n sto text).
 Proof.
   intros Hc Hm Hh Hs. rewrite parse_field_unfold, Hc, Hm. cbn [bind f_dt f_st].
-  unfold parse_components. rewrite (parse_components_aux_varies sto _ Hh).
+  unfold parse_components. rewrite (parse_components_aux_varies sto _ Hh (indexed_pos _)).
   2:{ unfold vcomps_fix in Hs. rewrite <- (indexed_snd (bsplit (csep e) text)) in Hs.
       now rewrite Forall_map in Hs. }
   cbn [bind is_strict negb andb]. rewrite Hvar. cbn [andb].
-  rewrite add_comps_varies by reflexivity. reflexivity.
+  rewrite add_comps_varies by (apply indexed_pos || reflexivity). reflexivity.
 Qed.
 
 (* encoding: Field._get_children for varies finds VARIES_1 .. VARIES_m by name *)
 Lemma varies_index_idx i : varies_index (Some (name_idx VARIES i)) = N.of_nat i.
 Proof.
   unfold varies_index. change (Some (unbs "VARIES")) with (Some VARIES).
-  rewrite valid_child_name_idx, streqb_refl.
+  destruct (Nat.eq_dec i 0) as [->|Hi]; [now rewrite valid_child_name_idx_0|].
+  rewrite valid_child_name_idx, streqb_refl by exact Hi.
   change 7 with (S (length VARIES)). rewrite name_idx_drop. apply nat_to_str_py_val.
 Qed.
 
@@ -522,33 +537,35 @@ Definition untyped_field (n : str) (sto : option structure) (text : str) : field
   mk_field_rec (Some n) None sto (vkids (indexed (bsplit (csep e) text))).
 
 Lemma parse_components_aux_untyped st l :
-  has_map st = false -> Forall (fun p => subs_fix (unbs "ST") (snd p)) l ->
+  has_map st = false -> pos_idx l -> Forall (fun p => subs_fix (unbs "ST") (snd p)) l ->
   parse_components_aux t TOLERANT e leaf None st l = Ok (vkids l).
 Proof.
-  intros Hm. induction 1 as [|[i s] l Hs _ IH]; [reflexivity|].
+  intros Hm Hp. induction 1 as [|[i s] l Hs _ IH]; [reflexivity|].
+  apply Forall_cons_iff in Hp. destruct Hp as [Hi Hp]. cbn [fst] in Hi. specialize (IH Hp).
   cbn [parse_components_aux]. rewrite base_none. cbn [opt_is_none orb]. rewrite Hm.
   change (name_idx (unbs "VARIES") i) with (name_idx VARIES i).
   rewrite name_idx_varies_starts, !orb_true_r.
-  cbn [snd] in Hs. rewrite (parse_component_varies i s Hs), IH. reflexivity.
+  cbn [snd] in Hs. rewrite (parse_component_varies i s Hi Hs), IH. reflexivity.
 Qed.
 
-Lemma vcc_untyped_child pn pst i :
+Lemma vcc_untyped_child pn pst i : i <> 0 ->
   valid_child_complex t TOLERANT pn None pst (Some (name_idx VARIES i)) None = Ok true.
 Proof.
-  unfold valid_child_complex. rewrite base_none. cbn [negb opt_is_none orb andb].
-  rewrite valid_child_name_idx. reflexivity.
+  intros Hi. unfold valid_child_complex. rewrite base_none. cbn [negb opt_is_none orb andb].
+  rewrite valid_child_name_idx by exact Hi. reflexivity.
 Qed.
 
-Lemma add_comps_untyped : forall l f, f_dt f = None ->
+Lemma add_comps_untyped : forall l f, pos_idx l -> f_dt f = None ->
   add_comps t TOLERANT f (vkids l) =
   Ok (mk_field_rec (f_name f) (f_dt f) (f_st f) (f_children f ++ vkids l)).
 Proof.
-  induction l as [|[i s] l IH]; intros f Hf.
+  induction l as [|[i s] l IH]; intros f Hp Hf.
   - cbn [vkids map add_comps]. rewrite app_nil_r. now destruct f.
-  - cbn [vkids map add_comps fst snd]. rewrite Hf, base_none. rewrite andb_false_r. cbn [andb].
-    cbn [varies_comp c_name c_dt]. rewrite vcc_untyped_child. cbn [bind negb].
+  - apply Forall_cons_iff in Hp. destruct Hp as [Hi Hp]. cbn [fst] in Hi.
+    cbn [vkids map add_comps fst snd]. rewrite Hf, base_none. rewrite andb_false_r. cbn [andb].
+    cbn [varies_comp c_name c_dt]. rewrite vcc_untyped_child by exact Hi. cbn [bind negb].
     rewrite card_ok_tolerant. cbn [negb].
-    fold (varies_comp i s). fold (vkids l). rewrite IH by reflexivity.
+    fold (varies_comp i s). fold (vkids l). rewrite IH by (exact Hp || reflexivity).
     cbn [f_name f_dt f_st f_children]. now rewrite <- app_assoc.
 Qed.
 
@@ -558,11 +575,11 @@ Lemma parse_field_untyped text name ref fv n sto :
   parse_field t TOLERANT e leaf text name ref fv = Ok (untyped_field n sto text).
 Proof.
   intros Hc Hm Hh Hs. rewrite parse_field_unfold, Hc, Hm. cbn [bind f_dt f_st].
-  unfold parse_components. rewrite (parse_components_aux_untyped sto _ Hh).
+  unfold parse_components. rewrite (parse_components_aux_untyped sto _ Hh (indexed_pos _)).
   2:{ unfold vcomps_fix in Hs. rewrite <- (indexed_snd (bsplit (csep e) text)) in Hs.
       now rewrite Forall_map in Hs. }
   cbn [bind is_strict negb andb]. rewrite base_none. cbn [andb].
-  rewrite add_comps_untyped by reflexivity. reflexivity.
+  rewrite add_comps_untyped by (apply indexed_pos || reflexivity). reflexivity.
 Qed.
 
 Lemma enc_field_untyped n sto text : not_msh12 n -> enc_field t e (untyped_field n sto text) = Ok text.
@@ -633,14 +650,14 @@ Proof. destruct sn as [|a [|b [|c [|]]]]; try discriminate. reflexivity. Qed.
 Lemma name_idx3_drop4 sn i : length sn = 3 -> drop 4 (name_idx sn i) = nat_to_str i.
 Proof. intros H. replace 4 with (S (length sn)) by lia. apply name_idx_drop. Qed.
 
-Lemma add_fields_step sn st inf la last ch x rest i :
+Lemma add_fields_step sn st inf la last ch x rest i : i <> 0 ->
   length sn = 3 -> f_name x = Some (name_idx sn i) ->
   (inf = true \/ opt_is_some (by_name st (name_idx sn i)) = true) ->
   add_fields t TOLERANT (mk_seg sn st inf la last ch) (x :: rest) =
   add_fields t TOLERANT (mk_seg sn st inf la (upd inf last i) (ch ++ [x])) rest.
 Proof.
-  intros H3 Hx Hadm. cbn [add_fields]. rewrite Hx. cbn [s_st s_inf s_name s_last s_last_allowed s_children].
-  rewrite valid_child_name_idx, streqb_refl, andb_true_r.
+  intros Hi H3 Hx Hadm. cbn [add_fields]. rewrite Hx. cbn [s_st s_inf s_name s_last s_last_allowed s_children].
+  rewrite valid_child_name_idx, streqb_refl, andb_true_r by exact Hi.
   assert (A : negb (opt_is_some (by_name st (name_idx sn i)) || opt_is_some (by_long st (name_idx sn i))) && negb inf = false).
   { destruct Hadm as [->| ->]; [now rewrite andb_false_r|reflexivity]. }
   rewrite A. rewrite name_idx_starts. cbn [negb]. rewrite card_ok_tolerant. cbn [negb].
@@ -651,15 +668,15 @@ Proof.
   destruct (N.ltb_spec last (N.of_nat i)); lia.
 Qed.
 
-Lemma add_fields_group sn st inf la i : forall g last ch rest,
+Lemma add_fields_group sn st inf la i : i <> 0 -> forall g last ch rest,
   length sn = 3 -> (forall x, In x g -> f_name x = Some (name_idx sn i)) ->
   (inf = true \/ opt_is_some (by_name st (name_idx sn i)) = true) ->
   add_fields t TOLERANT (mk_seg sn st inf la last ch) (g ++ rest) =
   add_fields t TOLERANT (mk_seg sn st inf la (if nilb g then last else upd inf last i) (ch ++ g)) rest.
 Proof.
-  induction g as [|x g IH]; intros last ch rest H3 Hg Hadm.
+  intros Hi. induction g as [|x g IH]; intros last ch rest H3 Hg Hadm.
   - cbn [app nilb]. now rewrite app_nil_r.
-  - cbn [app nilb]. rewrite (add_fields_step sn st inf la last ch x (g ++ rest) i H3); auto.
+  - cbn [app nilb]. rewrite (add_fields_step sn st inf la last ch x (g ++ rest) i Hi H3); auto.
     2:{ apply Hg. now left. }
     rewrite IH; auto. 2:{ intros y Hy. apply Hg. now right. }
     rewrite <- app_assoc. cbn [app]. rewrite upd_idem. now destruct g.
@@ -678,16 +695,16 @@ Fixpoint groups_named (sn : str) (a : nat) (gs : list (list field)) : Prop :=
   | g :: gs' => (forall x, In x g -> f_name x = Some (name_idx sn a)) /\ groups_named sn (S a) gs'
   end.
 
-Lemma add_fields_groups sn st inf la : forall gs a last ch,
+Lemma add_fields_groups sn st inf la : forall gs a last ch, a <> 0 ->
   length sn = 3 -> groups_named sn a gs ->
   (inf = true \/ forall i, a <= i < a + length gs -> opt_is_some (by_name st (name_idx sn i)) = true) ->
   add_fields t TOLERANT (mk_seg sn st inf la last ch) (concat gs) =
   Ok (mk_seg sn st inf la (last_idx inf a gs last) (ch ++ concat gs)).
 Proof.
-  induction gs as [|g gs IH]; intros a last ch H3 Hn Hadm.
+  induction gs as [|g gs IH]; intros a last ch Ha H3 Hn Hadm.
   - cbn [concat add_fields last_idx]. now rewrite app_nil_r.
   - destruct Hn as [Hg Hn]. cbn [concat last_idx].
-    rewrite (add_fields_group sn st inf la a g last ch (concat gs) H3 Hg).
+    rewrite (add_fields_group sn st inf la a Ha g last ch (concat gs) H3 Hg).
     2:{ destruct Hadm as [->|H]; [now left|right]. apply H. cbn [length]. lia. }
     rewrite (IH (S a)); auto.
     + now rewrite <- app_assoc.
